@@ -1029,8 +1029,13 @@ def convert_avg_pool_to_conv2d(op: Operation, arch, nng) -> Operation:
     op.name += "_conv2d"
 
     op.rounding_mode = RoundingMode.AwayZero
-    shape = [h, w, 1, op.ofm.shape[-1]]
-    weights = np.full(shape, 1)
+    # Every output channel averages its own input channel only: unit weights on the diagonal of the
+    # input channel x output channel plane of the (HWIO) kernel
+    depth = op.ofm.shape[-1]
+    shape = [h, w, depth, depth]
+    weights = np.zeros(shape, dtype=np.int64)
+    for channel in range(depth):
+        weights[:, :, channel, channel] = 1
     quant = QuantizationParameters(scale_f32=1 / (h * w), zero_point=0)
     # Add unit weight tensor
     op.add_input_tensor(
